@@ -404,6 +404,13 @@ static void apply_defect(json_t *jwk, const char *member, const char *cls)
 		} else json_object_set_new(jwk, member, json_string("AQIDBAUG"));
 	} else if (!strcmp(cls, "unknownstr")) json_object_set_new(jwk, member, json_string("bogus-value"));
 	else if (!strcmp(cls, "foreign")) json_object_set_new(jwk, member, json_string("AQAB"));
+	else if (!strcmp(cls, "huge")) {	/* valid base64url that decodes to 3 KiB: larger than any number a key of these sizes has */
+		char *z = malloc(4097);
+		for (int i = 0; i < 4096; i++) z[i] = B64U[(i * 11 + 5) % 64];
+		z[4096] = 0;
+		json_object_set_new(jwk, member, json_string(z));
+		free(z);
+	}
 	else if (!strcmp(cls, "unknownlong")) {	/* an unknown name longer than any message buffer */
 		char *z = malloc(301);
 		memset(z, 'z', 300); z[300] = 0;
@@ -1605,7 +1612,7 @@ static char *forge_token(json_t *td, json_t *info)
 			free(x); free(y);
 		} else die("sig over %s", over);
 
-		if (!strcmp(cls, "empty")) { sig = NULL; sl = 0; }
+		if (!strcmp(cls, "empty") || !strcmp(cls, "padonly")) { sig = NULL; sl = 0; }
 		else if (!strcmp(cls, "zerohead") || !strcmp(cls, "zerotail")) {
 			if (presig) { sig = presig; sl = presig_len; presig = NULL; }
 			else { sl = 32; sig = calloc(1, 33); memset(sig, 0x5a, 32); json_object_set_new(info, "signfail", json_integer(1)); }
@@ -1688,6 +1695,11 @@ static char *forge_token(json_t *td, json_t *info)
 				sigseg[n + textext] = 0;
 			}
 		} else sigseg = strdup("");
+		if (!strcmp(cls, "padonly")) {	/* a third segment that consists of '=' only: not empty, not a signature */
+			size_t n = (size_t)jint(sd, "tn", 2);
+			free(sigseg);
+			sigseg = malloc(n + 1); memset(sigseg, '=', n); sigseg[n] = 0;
+		}
 		free(sig); free(otext);
 	}
 
@@ -2598,6 +2610,7 @@ static void run_case(json_t *c, long idx)
 	emit(ev); json_decref(ev);
 }
 
+static int fault_leak;
 static const char *fault_only;	/* --fault-only <op>: allocation faults are counted and injected inside operations of that name only */
 #define FAULT_GATE(op) (!fault_only || !strcmp(jstr(op, "op", "?"), fault_only))
 static int is_config_op(const char *n)
@@ -2699,6 +2712,10 @@ static void run_case_fault(json_t *c, long idx)
 			free_all_objects();
 			alarm(0);
 			ev = json_pack("{s:s,s:i}", "e", "FaultEnd", "fired", alloc_failed);
+#ifdef DRV_ASAN
+			/* --fault-leak: what the run with the failing allocation left behind when all its objects are released */
+			if (fault_leak) json_object_set_new(ev, "leak", json_integer(__lsan_do_recoverable_leak_check() ? 1 : 0));
+#endif
 			emit(ev); json_decref(ev);
 			_exit(0);
 		}
@@ -2737,6 +2754,7 @@ int main(int argc, char **argv)
 		else if (!strcmp(argv[i], "--timeout") && i + 1 < argc) call_timeout = atoi(argv[++i]);
 		else if (!strcmp(argv[i], "--fault")) do_fault = 1;
 		else if (!strcmp(argv[i], "--fault-only") && i + 1 < argc) fault_only = argv[++i];
+		else if (!strcmp(argv[i], "--fault-leak")) fault_leak = 1;
 		else if (!strcmp(argv[i], "--track-alloc")) track_alloc = 1;
 		else if (!strcmp(argv[i], "--export-jwk") && i + 1 < argc) { mode_export = "jwk"; mode_arg = argv[++i]; }
 		else if (!strcmp(argv[i], "--export-key") && i + 1 < argc) { mode_export = "key"; mode_arg = argv[++i]; }
